@@ -1,7 +1,10 @@
 """C08 — the LR(1) generator builds a parser for exactly the grammar's language.
 
-Tie (translation validation + correspondence), per grammar G (random small CFGs, a hand
-corpus, and the two Emboss grammars):
+Tie (translation validation + correspondence), per grammar G (random small CFGs incl. directed
+families, a hand corpus, and the two Emboss grammars):
+  (o)   level B: the Lean model `gen G` of Grammar.parser() must produce exactly the real item
+        sets, state numbering, conflict flag and (conflict-free) ACTION/GOTO tables (`GEN`);
+        every conflict-free table passes the termination analysis (`LRTERM`, C08_terminates);
   (i)   real `lr1.Grammar(start, prods).parser()` either reports conflicts or its dumped
         tables + item sets pass the *proved* validator (`LRVALID`, Lean `Valid`), for which
         soundness / completeness / unambiguity / safety / error position are theorems;
@@ -41,7 +44,20 @@ CORPUS = [
     ("start-is-terminal", "a", []),
     ("lr2", "S", ["S -> A b c", "S -> B b d", "A -> a", "B -> a"]),
     ("left-right", "S", ["S -> S a", "S -> b A", "A -> c A", "A ->"]),
+    # indirect / mutual left recursion (cycles of length > 1 in the LR(1) item graph)
+    ("indirect-leftrec-2", "S", ["S -> A a", "S -> b", "A -> S c", "A -> d"]),
+    ("indirect-leftrec-3", "S", ["S -> A a", "A -> B b", "B -> S c", "B -> d"]),
+    ("mutual-leftrec-nullable", "S", ["S -> A b", "A -> B S a", "A ->", "B -> A c", "B -> d"]),
+    ("mutual-leftrec-shared", "S", ["S -> A a", "S -> b B", "A -> B c", "A ->", "B -> S d", "B -> A b b"]),
+    ("leftrec-via-second-member", "S", ["S -> A B a", "S -> c", "A -> S b", "A ->", "B -> A d", "B -> b"]),
+    ("unit-chain-4", "S", ["S -> A", "A -> B", "A -> B a", "B -> C", "C -> D", "C -> b D", "D -> c", "D ->"]),
+    ("expr-3-level", "E", ["E -> E a T", "E -> T", "T -> T b F", "T -> F", "F -> c E c", "F -> d", "F -> a F"]),
 ]
+
+
+# grammars per run drawn from each directed family, on top of the mixed random stream
+DIRECTED = [("mutual-leftrec", 260), ("hidden-leftrec", 20), ("rec-mix", 20), ("shared-closure", 20),
+            ("unit-chain", 15)]
 
 
 class Alarm(Exception):
@@ -81,6 +97,13 @@ def strings_for(alphabet, tier):
     return L, out
 
 
+def deep_bound(n_terminals, tier):
+    """Length bound for the real-code-vs-Earley comparison of the directed families."""
+    if tier == "quick":
+        return {0: 0, 1: 10, 2: 9, 3: 7, 4: 6}.get(n_terminals, 5)
+    return {0: 0, 1: 12, 2: 10, 3: 8, 4: 7}.get(n_terminals, 6)
+
+
 class Case(object):
     """One conflict-free grammar under examination."""
 
@@ -90,6 +113,10 @@ class Case(object):
         self.checks = []         # (line index, kind, payload)
         self.real = {}           # string -> canonical real result line
         self.bad = []            # (string, why) real code vs oracle
+        self.parser = None
+        self.oracle = None
+        self.conflicts = False
+        self.looping = False
 
     def grammar_text(self):
         return "start %s; " % self.start + "; ".join(str(p) for p in self.prods)
@@ -104,9 +131,11 @@ def examine(chk, name, start, prods, tags, tier, stats):
         stats["tags"][t] = stats["tags"].get(t, 0) + 1
     gtext = "start %s; " % start + "; ".join(str(p) for p in prods)
     oracle = cfg.Oracle(start, [(p.lhs, p.rhs) for p in prods])
-    signal.setitimer(signal.ITIMER_REAL, 300)
+    signal.setitimer(signal.ITIMER_REAL, 120)
     try:
         parser, g, exc = build_real(start, prods)
+        signal.setitimer(signal.ITIMER_REAL, 0)      # the alarm guards table generation; parses have their own
+        signal.signal(signal.SIGALRM, _alarm)
         if exc is not None:
             stats["crash"] += 1
             if too_many(chk):
@@ -115,12 +144,25 @@ def examine(chk, name, start, prods, tags, tier, stats):
                                     "expected": "a parser or a non-empty conflict set"},
                           key="crash:lr1.py:Grammar.parser:%s" % type(exc).__name__)
             return None
-        amb = oracle.ambiguous_witness(5 if tier == "quick" else 6)
+        # level B: the model generator must produce exactly these item sets / tables
+        case = Case(name, start, prods, tags)
+        uprods = list(dict.fromkeys(prods))
+        allp = uprods + [g.productions[-1]]
+        sym = lr1dump.ordered_interner([start, lr1.START_PRIME, lr1.END_OF_INPUT] +
+                                       [x for p in prods for x in (p.lhs,) + tuple(p.rhs)])
+        code = lr1dump.Interner()
+        case.lines.append(lr1dump.gen_line(start, uprods, sym))
+        case.checks.append((0, "gen", lr1dump.gen_expected(parser, allp, sym)))
+        case.parser, case.oracle = parser, oracle
         if parser.conflicts:
             stats["conflicts"] += 1
             chk.nontrivial("conflict:" + gtext)
-            return None
+            case.conflicts = True
+            return case
         stats["conflict_free"] += 1
+        for t in tags:
+            stats["tags_conflict_free"][t] = stats["tags_conflict_free"].get(t, 0) + 1
+        amb = oracle.ambiguous_witness(5 if tier == "quick" else 6)
         if amb is not None:
             stats["ambiguous_silently_accepted"] += 1
             if too_many(chk):
@@ -129,16 +171,13 @@ def examine(chk, name, start, prods, tags, tier, stats):
                                     "observed": "no conflicts reported",
                                     "expected": "conflicts: the sentence has >= 2 parse trees"})
             return None
-        case = Case(name, start, prods, tags)
-        sym, code = lr1dump.Interner(), lr1dump.Interner()
         # duplicate productions collapse (Production is a value type): the model grammar is
         # the production list without repetitions, seed production last
-        uprods = list(dict.fromkeys(prods))
-        allp = uprods + [g.productions[-1]]
         aut, plist = lr1dump.dump_automaton(parser, "g", False, sym, code, prod_list=allp)
         case.lines += [aut, lr1dump.gram_line(start, uprods, sym),
-                       lr1dump.cert_line(parser, allp, sym), "LRVALID g"]
-        case.checks.append((3, "valid", None))
+                       lr1dump.cert_line(parser, allp, sym), "LRVALID g", "LRTERM g"]
+        case.checks.append((4, "valid", None))
+        case.checks.append((5, "term", None))
         alphabet = list(oracle.terminals)
         if len(alphabet) <= 3 and "z" not in alphabet:
             alphabet.append("z")          # a token the grammar does not know
@@ -164,55 +203,100 @@ def examine(chk, name, start, prods, tags, tier, stats):
         stats["sampled_long"] = stats.get("sampled_long", 0) + len(sampled)
         extra += sorted(sampled)
         for w in strings + extra:
-            toks = lr1dump.make_tokens(w)
-            line, res, pexc = lr1dump.real_parse(parser, toks, sym, code)
+            line = judge(case, w, truth[w] if w in truth else oracle.first_error_index(w), stats, sym, code)
             case.real[w] = line
             case.lines.append("RUN g %d %s" % (40 * len(w) + 200, lr1dump.fld(",".join(str(sym(x)) for x in w))))
             case.checks.append((len(case.lines) - 1, "run", w))
-            stats["strings"] += 1
-            # ---- spec oracle on the real result
-            want = truth[w] if w in truth else oracle.first_error_index(w)
-            if pexc is not None:
-                case.bad.append((w, "exception %r" % pexc, "crash:lr1.py:Parser.parse:%s" % type(pexc).__name__))
-            elif res.error is None:
-                stats["accepted"] += 1
-                if want is not None:
-                    case.bad.append((w, "accepted, but not a sentence",
-                                     EOI_KEY if lr1.END_OF_INPUT in w else None))
-                else:
-                    index_of = dict((id(t), i) for i, t in enumerate(toks))
-                    try:
-                        why = oracle.check_tree(lr1dump.tree_tuple(res.parse_tree, index_of), w)
-                    except ValueError as e:
-                        why = str(e)
-                    if why:
-                        case.bad.append((w, "parse tree is not a derivation: " + why, None))
-            else:
-                stats["rejected"] += 1
-                if want is None:
-                    case.bad.append((w, "rejected, but it is a sentence", None))
-                elif res.error.index != want:
-                    if res.error.index > want and not oracle.reduced:
-                        stats["late_error_unproductive"] += 1
-                        case.bad.append((w, "error at %d, first non-viable prefix ends at %d" % (
-                            res.error.index, want), F10_KEY))
-                    else:
-                        case.bad.append((w, "error at %d, first non-viable prefix ends at %d" % (
-                            res.error.index, want), None))
-                elif res.error.token is not (toks[want] if want < len(toks) else res.error.token) or (
-                        want == len(toks) and res.error.token.symbol != lr1.END_OF_INPUT):
-                    case.bad.append((w, "error token is not the token at the error index", None))
+        # directed families: real code vs the Earley oracle on all longer strings over the
+        # terminals (no model run: `Valid` + the theorems speak for the model)
+        if any(t in cfg.DEEP_FAMILIES or t == "corpus" for t in tags) and oracle.terminals:
+            Ld = deep_bound(len(oracle.terminals), tier)
+            if Ld > L:
+                deep = oracle.scan_all(Ld, oracle.terminals)
+                for w, want in deep.items():
+                    if len(w) > L:
+                        judge(case, w, want, stats, sym, code)
+                        stats["deep_strings"] += 1
         stats["sentences"] += sum(1 for w in strings if truth[w] is None)
         chk.nontrivial("free:" + gtext)
         return case
     except Alarm:
-        chk.violation("input", {"input": gtext, "observed": "no result within 300 s",
+        chk.violation("input", {"input": gtext, "observed": "Grammar(...).parser(): no result within 120 s",
                                 "expected": "termination"}, key="timeout:" + name)
         return None
     finally:
         signal.setitimer(signal.ITIMER_REAL, 0)
 
 
+def judge(case, w, want, stats, sym, code):
+    """Real `Parser.parse` on `w` judged by the spec oracle (`want` = None for a sentence, else
+    the index of the first token no sentence can continue with).  Returns the canonical line."""
+    lr1 = lr1dump.lr1mod()
+    parser, oracle = case.parser, case.oracle
+    toks = lr1dump.make_tokens(w)
+    if case.looping:
+        return "internal ParseTimeout"       # one non-terminating input per grammar is enough
+    line, res, pexc = lr1dump.real_parse(parser, toks, sym, code, limit=PARSE_LIMIT)
+    stats["strings"] += 1
+    if isinstance(pexc, lr1dump.ParseTimeout):
+        case.looping = True
+        stats["parse_timeouts"] = stats.get("parse_timeouts", 0) + 1
+        case.bad.append((w, "no result within %d s: Parser.parse does not terminate on this input" % PARSE_LIMIT,
+                         "timeout:parse"))
+    elif pexc is not None:
+        case.bad.append((w, "exception %r" % pexc, "crash:lr1.py:Parser.parse:%s" % type(pexc).__name__))
+    elif res.error is None:
+        stats["accepted"] += 1
+        if want is not None:
+            case.bad.append((w, "accepted, but not a sentence", EOI_KEY if lr1.END_OF_INPUT in w else None))
+        else:
+            index_of = dict((id(t), i) for i, t in enumerate(toks))
+            try:
+                why = oracle.check_tree(lr1dump.tree_tuple(res.parse_tree, index_of), w)
+            except ValueError as e:
+                why = str(e)
+            if why:
+                case.bad.append((w, "parse tree is not a derivation: " + why, None))
+    else:
+        stats["rejected"] += 1
+        if want is None:
+            case.bad.append((w, "rejected, but it is a sentence", None))
+        elif res.error.index != want:
+            if res.error.index > want and not oracle.reduced:
+                stats["late_error_unproductive"] += 1
+                case.bad.append((w, "error at %d, first non-viable prefix ends at %d" % (
+                    res.error.index, want), F10_KEY))
+            else:
+                case.bad.append((w, "error at %d, first non-viable prefix ends at %d" % (
+                    res.error.index, want), None))
+        elif res.error.token is not (toks[want] if want < len(toks) else res.error.token) or (
+                want == len(toks) and res.error.token.symbol != lr1.END_OF_INPUT):
+            case.bad.append((w, "error token is not the token at the error index", None))
+    return line
+
+
+def deep_search(chk, case, tier, stats):
+    """The validator rejected the tables of a conflict-free parser but the bounded comparison
+    found no failing string: look further — every *sentence* up to a larger bound must be
+    accepted with a derivation (the usual effect of an incomplete state is a rejected sentence)."""
+    o = case.oracle
+    k = len(o.terminals)
+    L = {0: 0, 1: 16, 2: 12, 3: 9, 4: 8}.get(k, 6) + (0 if tier == "quick" else 1)
+    sym, code = lr1dump.Interner(), lr1dump.Interner()
+    t0 = time.time()
+    n = 0
+    for w, want in sorted(o.scan_all(L, o.terminals).items(), key=lambda kv: (len(kv[0]), kv[0])):
+        if want is None or len(w) <= 2:
+            judge(case, w, want, stats, sym, code)
+            n += 1
+            if case.bad:
+                break
+    stats["deep_search_sentences"] = stats.get("deep_search_sentences", 0) + n
+    stats["deep_search_s"] = round(stats.get("deep_search_s", 0) + time.time() - t0, 1)
+    return bool(case.bad)
+
+
+PARSE_LIMIT = 5       # seconds per real parse of a short token list (normally microseconds)
 MAX_REPLAYS = 12      # one defect shows on many grammars: further failures are only counted
 
 
@@ -227,7 +311,7 @@ def report_bad(chk, case):
     """Real code vs spec oracle: each distinct failure kind of a grammar is reported once."""
     seen = set()
     for w, why, key in case.bad:
-        kind = (key, why.split(",")[0][:30])
+        kind = (key, "".join(ch for ch in why.split(",")[0][:30] if not ch.isdigit()))
         if kind in seen:
             continue
         seen.add(kind)
@@ -249,6 +333,9 @@ def compare_model(chk, case, answers, stats):
                 continue
             stats["invalid"] += 1
             disagreements += 1
+            if not case.bad and case.oracle is not None and stats["invalid"] <= 6:
+                if deep_search(chk, case, stats.get("tier", "quick"), stats):
+                    report_bad(chk, case)
             if case.bad or too_many(chk):
                 continue   # the oracle already produced a failing input for this grammar
             chk.violation("correspondence", {
@@ -256,6 +343,38 @@ def compare_model(chk, case, answers, stats):
                 "theorem_or_correspondence": "LRVALID (Lean `Valid`) rejects the tables of a conflict-free "
                                              "Grammar.parser(); the oracle found no failing string",
                 "expected": "valid"}, found_input=False)
+        elif kind == "gen":
+            # level B: model generator `gen G` vs the real Grammar.parser(): item sets, state
+            # numbering, conflict flag, and (conflict-free) ACTION / GOTO tables
+            if ans == w:
+                stats["gen_equal"] = stats.get("gen_equal", 0) + 1
+                continue
+            stats["gen_differs"] = stats.get("gen_differs", 0) + 1
+            disagreements += 1
+            if not case.conflicts and not case.bad and stats["gen_differs"] <= 6:
+                if deep_search(chk, case, stats.get("tier", "quick"), stats):
+                    report_bad(chk, case)
+            if case.bad or too_many(chk):
+                continue
+            chk.violation("correspondence", {
+                "input": case.grammar_text(), "model": ans[:2000], "observed": w[:2000],
+                "theorem_or_correspondence": "GEN (Lean model of Grammar.parser(), level B) vs the real item "
+                                             "sets / tables; the oracle found no failing string",
+                "expected": "identical item sets, state numbering, conflict flag and tables"}, found_input=False)
+        elif kind == "term":
+            # termination analysis (TermOK, theorem C08_terminates): a real loop on a short input
+            # would have hit the per-grammar alarm; here the table as a whole is analysed
+            if ans == "terminates":
+                stats["terminates"] = stats.get("terminates", 0) + 1
+                continue
+            disagreements += 1
+            if case.bad or too_many(chk):
+                continue
+            chk.violation("correspondence", {
+                "input": case.grammar_text(), "model": ans,
+                "theorem_or_correspondence": "LRTERM (Lean `TermOK`) finds a chain of reductions that does not "
+                                             "come to an end in the tables of a conflict-free Grammar.parser()",
+                "expected": "terminates"}, found_input=False)
         else:
             if ans == case.real[w]:
                 continue
@@ -342,8 +461,9 @@ def emboss_cases(chk, tier, stats, model_ok):
                     lr1dump.cert_line(parser, all_prods, sym) + "\n")
         stats["emboss_all_nonterminals_productive_" + slot] = emboss_oracle(start, user).reduced
         case = Case("emboss-" + slot, start, user, ["emboss"])
-        case.lines += ["LOADF " + path, "LRVALID " + slot]
+        case.lines += ["LOADF " + path, "LRVALID " + slot, "LRTERM " + slot]
         case.checks.append((1, "valid", None))
+        case.checks.append((2, "term", None))
         case.grammar_text = lambda slot=slot: "Emboss %s grammar (module_ir.PRODUCTIONS)" % slot
         # token streams
         streams = []
@@ -394,7 +514,7 @@ def emboss_cases(chk, tier, stats, model_ok):
             # fresh identities; mutated streams carry no locations (shuffled locations would
             # trip SourceLocation's start <= end assertion, which real token lists never do)
             toks = [pt.Token(t.symbol, t.text, t.source_location if k < len(streams) else None) for t in toks]
-            line, res, pexc = lr1dump.real_parse(parser, toks, sym, code)
+            line, res, pexc = lr1dump.real_parse(parser, toks, sym, code, limit=60)
             w = tuple(t.symbol for t in toks)
             key = (len(case.real), w)
             case.real[key] = line
@@ -450,7 +570,7 @@ def parser_seed(start):
 
 # ------------------------------------------------------------------------- run
 def new_stats():
-    return {"tags": {}, "conflicts": 0, "conflict_free": 0, "crash": 0, "strings": 0, "accepted": 0,
+    return {"tags": {}, "tags_conflict_free": {}, "deep_strings": 0, "conflicts": 0, "conflict_free": 0, "crash": 0, "strings": 0, "accepted": 0,
             "rejected": 0, "sentences": 0, "validated": 0, "invalid": 0, "ambiguous_silently_accepted": 0,
             "late_error_unproductive": 0, "emboss_streams": 0, "emboss_accepted": 0, "emboss_rejected": 0,
             "emboss_earley": 0}
@@ -477,6 +597,17 @@ def all_cases(chk, tier, stats, n_random, tag):
         c = examine(chk, "rnd%d" % i, start, [pt.Production(l, tuple(rr)) for l, rr in prods], tags, tier, stats)
         if c:
             cases.append(c)
+    # directed families (most of these grammars have conflicts, which is cheap to establish; the
+    # conflict-free ones exercise closure memoisation over cyclic item graphs, goto sharing, ...)
+    r = common.rng(tag + "-directed")
+    scale = max(1, n_random // 150)
+    for fam, count in DIRECTED:
+        for i in range(count * (1 if scale == 1 else 4)):
+            start, prods, tags = cfg.random_grammar(r, fam)
+            c = examine(chk, "%s%d" % (fam, i), start, [pt.Production(l, tuple(rr)) for l, rr in prods],
+                        tags, tier, stats)
+            if c:
+                cases.append(c)
     return cases
 
 
@@ -498,6 +629,7 @@ def run(tier):
     lr1_examples.regenerate()      # tie T: example tables from the real lr1.py
     model_ok = common.proof_gate(chk, search)
     stats = new_stats()
+    stats["tier"] = tier
     pinned(chk)
     n = 150 if tier == "quick" else 2500
     cases = all_cases(chk, tier, stats, n, "C08")
@@ -519,12 +651,13 @@ def run(tier):
         chk.extra["traces_validated_against_impl"] = sum(
             1 for c in cases for ch in c.checks if ch[1] == "run")
         chk.extra["disagreements"] = dis
-        for c in cases[:3]:
-            chk.sample({"grammar": c.grammar_text(), "strings": len(c.real)}, limit=4)
+    for c in [c for c in cases if not c.conflicts][:3]:
+        chk.sample({"grammar": c.grammar_text(), "strings": len(c.real)}, limit=4)
     chk.extra["distribution"] = stats
     chk.trusted += [
-        "compiled Lean validator run (validB = decide Valid) on each dumped table: that it returned true is "
-        "trusted to the Lean compiler/runtime",
+        "compiled Lean validator (validFast, proved to imply Valid), termination analysis (termOK = decide TermOK) "
+        "and generator model (gen) run on each dumped table / grammar: that they returned what the driver printed "
+        "is trusted to the Lean compiler/runtime",
         "harness/lib/lr1dump.py: transcription of lr1.Parser tables, item sets and results into the protocol",
         "harness/lib/cfg.py: Earley oracle (self-tested against brute-force enumeration)",
     ]
